@@ -675,9 +675,15 @@ func Verif_C34_LoopPkPwKi() {
 		signers: [][2]int{{0, 0}}, strict: true})
 }
 
-// Verif_C34_LoopPwPk5: as LoopPwPk with 5 replies and optional banners before each reply.
+// Verif_C34_LoopPwPk5: as LoopPwPk with 5 replies.
 func Verif_C34_LoopPwPk5() {
-	c34Run(c34Params{k: 5, replies: c34Replies(0), qreplies: c34QReplies, auth: []int{1, 2}, banner: true,
+	c34Run(c34Params{k: 5, replies: c34Replies(0), qreplies: c34QReplies, auth: []int{1, 2},
+		signers: [][2]int{{0, 1}, {1, 1}}, hasExt: true, server: []string{KeyAlgoRSASHA512, KeyAlgoED25519}, strict: true})
+}
+
+// Verif_C34_LoopBanner: as LoopPwPk with 3 replies, each optionally preceded by a banner.
+func Verif_C34_LoopBanner() {
+	c34Run(c34Params{k: 3, replies: c34Replies(0), qreplies: c34QReplies, auth: []int{1, 2}, banner: true,
 		signers: [][2]int{{0, 1}, {1, 1}}, hasExt: true, server: []string{KeyAlgoRSASHA512, KeyAlgoED25519}, strict: true})
 }
 
